@@ -139,6 +139,51 @@ func run(dir string, env []string, timeout time.Duration, name string, args ...s
 	}
 }
 
+// raceReports splits the race detector's reports out of a test log.
+func raceReports(log string) []string {
+	var out []string
+	parts := strings.Split(log, "WARNING: DATA RACE")
+	for _, p := range parts[1:] {
+		if i := strings.Index(p, "=================="); i >= 0 {
+			p = p[:i]
+		}
+		out = append(out, "WARNING: DATA RACE"+p)
+		if len(out) >= 5 {
+			break
+		}
+	}
+	return out
+}
+
+// raceSignature names the innermost mattn/anko frame of each of the two accesses.
+func raceSignature(id, rep string) (string, bool) {
+	var frames []string
+	for _, block := range strings.Split(rep, "\n\n") {
+		if !(strings.Contains(block, "Write at") || strings.Contains(block, "Read at") || strings.Contains(block, "Previous write") || strings.Contains(block, "Previous read")) {
+			continue
+		}
+		for _, l := range strings.Split(block, "\n") {
+			l = strings.TrimSpace(l)
+			if strings.HasPrefix(l, "github.com/mattn/anko/") {
+				f := strings.TrimPrefix(l, "github.com/mattn/anko/")
+				if j := strings.Index(f, "("); j > 0 {
+					// keep "(*T).method" forms intact: cut at the argument list only
+					if k := strings.LastIndex(f, "("); k > 0 {
+						f = f[:k]
+					}
+				}
+				frames = append(frames, f)
+				break
+			}
+		}
+	}
+	if len(frames) == 0 {
+		return "", false
+	}
+	sort.Strings(frames)
+	return id + "|data-race|" + strings.Join(frames, "+"), true
+}
+
 func tail(s string, n int) string {
 	if len(s) <= n {
 		return s
@@ -381,6 +426,23 @@ func main() {
 	}
 	merged.NonTrivial = int64(len(distinct))
 
+	// race-detector reports of -race builds
+	if cfg.RaceIsViolation {
+		for i, so := range outs {
+			for _, rep := range raceReports(so.log) {
+				sig, inAnko := raceSignature(id, rep)
+				if !inAnko {
+					continue
+				}
+				b, _ := json.Marshal(map[string]string{"report": rep, "note": "race detector report; schedule dependent, not replayable deterministically"})
+				merged.Failures = append(merged.Failures, failure{Property: id, Check: "race-detector", Sig: sig, Msg: "the race detector reported a data race inside mattn/anko while generated programs were running (shard " + strconv.Itoa(i) + ")\n" + tail(rep, 2500), Case: b, Flaky: true})
+				if incomplete != "" && strings.Contains(incomplete, "exited abnormally") {
+					incomplete = ""
+				}
+			}
+		}
+	}
+
 	// budget sanity: fewer than half of the requested cases => inconclusive
 	for k, req := range merged.Requested {
 		if req > 0 && merged.Checks[k]*2 < req && len(merged.Failures) == 0 && incomplete == "" {
@@ -436,17 +498,17 @@ func main() {
 			samples = []interface{}{"(no non-trivial case was generated)"}
 		}
 		cov := map[string]interface{}{
-			"evaluations":              merged.Evaluations,
-			"distinct_nontrivial":      merged.NonTrivial,
-			"rule":                     strings.Join(append([]string{cfg.Rule}, merged.Rules...), " || "),
-			"samples":                  samples,
-			"classes":                  merged.Classes,
-			"excluded_by_construction": merged.Excluded,
-			"excluded_by_signature":    merged.ExcludedBySig,
-			"cases_passed_per_check":   merged.Checks,
+			"evaluations":               merged.Evaluations,
+			"distinct_nontrivial":       merged.NonTrivial,
+			"rule":                      strings.Join(append([]string{cfg.Rule}, merged.Rules...), " || "),
+			"samples":                   samples,
+			"classes":                   merged.Classes,
+			"excluded_by_construction":  merged.Excluded,
+			"excluded_by_signature":     merged.ExcludedBySig,
+			"cases_passed_per_check":    merged.Checks,
 			"cases_requested_per_check": merged.Requested,
-			"shards":                   shards,
-			"regression_replays":       len(regress),
+			"shards":                    shards,
+			"regression_replays":        len(regress),
 			"known_findings_reproduced": len(knownSeen),
 		}
 		for k, v := range merged.Extra {
